@@ -579,6 +579,30 @@ impl<'tcx> Cx<'tcx> {
             }
             s.push_str(&self.block(def, body, bb));
         }
+        s.push(']');
+        // promoted constants of this body (`&Some(&f64::INFINITY)`, `&[..]`): small bodies of their own, exported so that rules can see their value
+        s.push_str(",\"promoted\":[");
+        let proms = tcx.promoted_mir(did);
+        for (pi, pb) in proms.iter().enumerate() {
+            if pi > 0 {
+                s.push(',');
+            }
+            let _ = write!(s, "{{\"path\":{},\"kind\":\"Promoted\",\"span\":{},\"argc\":0,\"dbg\":[],\"locals\":[", js(&format!("{}::promoted[{}]", self.path(did), pi)), self.span_json(pb.span));
+            for (i, ld) in pb.local_decls.iter().enumerate() {
+                if i > 0 {
+                    s.push(',');
+                }
+                let _ = write!(s, "{{\"ty\":{}}}", js(&self.ty(ld.ty)));
+            }
+            s.push_str("],\"blocks\":[");
+            for (i, bb) in pb.basic_blocks.iter().enumerate() {
+                if i > 0 {
+                    s.push(',');
+                }
+                s.push_str(&self.block(def, pb, bb));
+            }
+            s.push_str("]}");
+        }
         s.push_str("]}");
         Some(s)
     }
